@@ -327,3 +327,44 @@ GENERATORS['C09'] = gc.gen_small_trees
 GENERATORS['C10'] = gc.gen_actions
 GENERATORS['C15'] = gc.gen_histories_c15
 GENERATORS['C02'] = gc.gen_trees
+
+
+# ------------------------------------------------------------------ kitchen sink for the totality-type properties
+# C03 (no panic/abort/hang) and C17 (debug = release) apply to ANY request: besides their own corpora they
+# get a sample of every other property's stream, so that an input class added for one property is also
+# exercised for them.
+def _with_sink(gen, own_pid, per_quick=400, per_thorough=4000, maxlen=None):
+    def g(tier, rnd):
+        lines, info = gen(tier, rnd)
+        per = per_quick if tier == 'quick' else per_thorough
+        extra = []
+        for pid in sorted(GENERATORS):
+            if pid in ('C03', 'C17', own_pid):
+                continue
+            sub = random.Random('%s:%s' % (pid, rnd.random()))
+            other, _ = _BASE[pid](tier, sub)
+            if maxlen:
+                other = [l for l in other if len(l) <= maxlen]
+            if len(other) > per:
+                other = sub.sample(other, per)
+            for l in other:
+                if l.startswith('P '):
+                    parts = l.split(' ')
+                    l = 'C ' + parts[1] + ' ' + hx('/dev/x') + ((' ' + ' '.join(p for p in parts[2:] if p.startswith('#'))) if len(parts) > 2 else '')
+                # trees with option/precedence nodes are not results of parse(): outside these properties' domain
+                if l.startswith('T ') and ('(G ' in l or '(Prec ' in l or '(Pos ' in l):
+                    continue
+                if l.startswith(('C ', 'T ')):
+                    extra.append(l)
+        info = dict(info)
+        info['rule'] = 'a sample of every other property\'s stream (%d requests); ' % len(extra) + info['rule']
+        info['streams'] = dict(info.get('streams', {}), sink=len(extra))
+        return lines + extra, info
+    return g
+
+
+_BASE = dict(GENERATORS)
+GENERATORS['C03'] = _with_sink(_BASE['C03'], 'C03')
+GENERATORS['C17'] = _with_sink(_BASE['C17'], 'C17')
+# translation validity is stated for every expression that compiles: same sample
+GENERATORS['C02'] = _with_sink(_BASE['C02'], 'C02', 150, 1500, 1500)
